@@ -57,6 +57,8 @@ class FaultyFile:
 		self.format = 'fasta'
 		self.compression = None
 		self.exc = exc
+		import os
+		self.owner_pid = os.getpid()
 		self.phase = phase       # 'call' (parse() itself raises) | 'enter' (entering the context) | 'mid' (after the first record)
 
 	def __fspath__(self):
@@ -69,6 +71,13 @@ class FaultyFile:
 		raise make_exc(self.exc)
 
 	def parse(self, **kw):
+		if self.exc == 'worker_killed':
+			# the worker PROCESS handling this file dies abruptly (OOM killer, kill -9): only inside a pool worker, never in the
+			# process that built the object
+			import os, signal
+			if os.getpid() != self.owner_pid:
+				os.kill(os.getpid(), signal.SIGKILL)
+			raise OSError(errno.EIO, 'Input/output error')
 		if self.phase == 'call':
 			raise make_exc(self.exc)
 		return _Parsing(self.exc, self.phase)
